@@ -1312,6 +1312,10 @@ class CanUnprotect(BaseSecurityContext):
         )
 
         if unprotected.pop(COSE_COUNTERSIGNATURE0, None) is not None:
+            if not getattr(self, "is_signing", False):
+                raise DecodeError(
+                    "Group mode messages can not be decoded with this context"
+                )
             try:
                 alg_signature = self.alg_signature
             except AttributeError:
@@ -1349,6 +1353,10 @@ class CanUnprotect(BaseSecurityContext):
 
             alg_symmetric = self.alg_group_enc
         else:
+            if getattr(self, "is_signing", False):
+                raise DecodeError(
+                    "Messages without countersignature can not be decoded with this group mode context"
+                )
             alg_symmetric = self.alg_aead
 
         if unprotected:
